@@ -34,7 +34,7 @@ def required_cells(tier):
             "start!=0": 4, "record_all:False": 2, "heun_steps_checked": 50,
             "td": 4, "subdiv:None": 8, "second-solver-on-same-system": 8,
             "pulsed-H&loose-liouvillian-epsrel": 2,
-            "initial-matrix:non-hermitian": 2}
+            "initial-matrix:non-hermitian": 2, "add_correlation_time": 6}
 
 
 def cases(tier, seed):
@@ -131,6 +131,12 @@ def run_case(case):
     epsrel = float(rng.choice([1e-7, 1e-8, 1e-9]))
     kmax = [None, 3, None][i % 3]
     tau = None
+    if kmax is not None:
+        # the correlations beyond the memory cut-off folded into the last
+        # influence (TempoParameters.add_correlation_time): an option both
+        # methods (and plain TEMPO) must honour
+        tau = [None, 0.3 * dt, 1.7 * dt, float("inf")][(i // 3) % 4]
+        nsteps = max(nsteps, 5)
     record_all = not (i % 4 == 3)
     td = bool(i % 2 == 0) or variant in ("linear", "frozen")
     sd = variant not in ("linear", "frozen")
@@ -203,6 +209,8 @@ def run_case(case):
         cells.append("second-solver-on-same-system")
     if subdiv is None:
         cells.append("subdiv:None")
+    if tau is not None:
+        cells.append("add_correlation_time")
     if general_init:
         cells.append("initial-matrix:non-hermitian")
     log_a.events.clear()
